@@ -23,6 +23,8 @@ pub fn strategy(tier: Tier) -> BoxedStrategy<Scenario> {
             let sub = proptest::collection::vec(prop_oneof![3 => Just(vec![]), 2 => Just(vec![Act::Yield]), 2 => (1u16..4).prop_map(|ms| vec![Act::Sleep(ms)])], n as usize);
             let op = prop_oneof![
                 14 => Just(Op::PortPub(0)),
+                // a burst longer than the v2 port's batch size (32) and the default port's buffer (10)
+                1 => prop_oneof![2 => 2u8..12, 2 => 30u8..40, 2 => 60u8..70, 1 => 90u8..100].prop_map(|n| Op::PortPubMany { first: 0, n }),
                 3 => (gen::idx(n), 0u8..5).prop_map(|(who, conv)| Op::PortSub { who, conv }),
                 1 => gen::idx(n).prop_map(Op::Stop),
                 1 => gen::idx(n).prop_map(Op::Kill),
@@ -39,6 +41,10 @@ pub fn strategy(tier: Tier) -> BoxedStrategy<Scenario> {
                 if let Op::PortPub(x) = op {
                     *x = k;
                     k += 1;
+                }
+                if let Op::PortPubMany { first, n } = op {
+                    *first = k;
+                    k += *n as u32;
                 }
             }
             let mut c0: Vec<Op> = (0..n).map(Op::Spawn).collect();
@@ -62,6 +68,7 @@ pub fn check(sc: &Scenario, ex: &Exec) -> Result<(bool, Vec<String>), Violation>
         if let Ev::OpEnd { c: 0, i, res } = &e.ev {
             match (&ops[*i], res) {
                 (Op::PortPub(n), _) => pubs.push((*n, pos)),
+                (Op::PortPubMany { first, n }, _) => pubs.extend((0..*n as u32).map(|k| (*first + k, pos))),
                 (Op::PortSub { who, conv }, Res::Found(sid)) => {
                     subs.insert(*sid as u16, (*who as usize, *conv, pos));
                 }
@@ -182,7 +189,7 @@ impl Part for C16 {
     }
     fn rule() -> &'static str {
         if IS_V2 {
-            "output-port-v2 build: generated publisher history (up to 40/90 ops: numbered publications, subscriptions of 1-4 scripted subscriber actors at arbitrary stream positions incl. re-subscription, converters that tag the subscription and map a generated residue class to None, stop/kill of subscribers, yields) with slow subscribers and schedule bytes; oracle per subscription: received == filter_map(published after subscribe) exactly while the subscriber lives (prefix after a stop/kill), strictly increasing, nothing from before the subscription; non-trivial = a mid-stream subscription plus a dead or lagging subscriber"
+            "output-port-v2 build: generated publisher history (up to 40/90 ops: numbered publications, bursts of 2-100 publications back to back, subscriptions of 1-4 scripted subscriber actors at arbitrary stream positions incl. re-subscription, converters that tag the subscription and map a generated residue class to None, stop/kill of subscribers, yields) with slow subscribers and schedule bytes; oracle per subscription: received == filter_map(published after subscribe) exactly while the subscriber lives (prefix after a stop/kill), strictly increasing, nothing from before the subscription; non-trivial = a mid-stream subscription plus a dead or lagging subscriber"
         } else {
             "default (broadcast) port: same generator; oracle per subscription: received is a strictly increasing subsequence of filter_map(published after subscribe) without duplicates, and every mapped message among the last 10 raw publications is present for a live subscriber; non-trivial = a mid-stream subscription plus a dead or lagging subscriber"
         }
